@@ -60,7 +60,13 @@ func VerifC06UploadCrash() {
 	beforeM, beforeV, beforeB := vSnapshot(meta), vSnapshot(vmeta), vSnapshot(blob)
 
 	// the interrupted upload
-	const maxCalls = 9
+	maxCalls := 9
+	newFiles, newOrder := map[string][]byte{"a": ca, "b": cb}, []string{"a", "b"}
+	if vThorough() {
+		// a third file: more blob and index writes to die at
+		newFiles, newOrder = map[string][]byte{"a": ca, "b": cb, "c": []byte("content-c")}, []string{"a", "b", "c"}
+		maxCalls = 13
+	}
 	cr := &vCrasher{stores: []*vStore{meta, vmeta, blob}}
 	cr.crashAt = vInt("crashAt", 0, maxCalls) // symbolic crash point: the store model decides at each mutating call whether it is the one
 	if cr.crashAt > 0 {
@@ -75,7 +81,7 @@ func VerifC06UploadCrash() {
 	cr.install()
 	meta.ops = nil
 	vNextSecond()
-	nb, uerr := upload(map[string][]byte{"a": ca, "b": cb}, []string{"a", "b"})
+	nb, uerr := upload(newFiles, newOrder)
 	cr.revive()
 	if cr.crashAt > 0 && !cr.crashed {
 		vAssume(false) // the upload makes fewer mutating calls than crashAt: same as no crash
@@ -102,6 +108,10 @@ func VerifC06UploadCrash() {
 	_, hasI1 := meta.data[model.GetArchivePathToBundleFileList("r", newID, 1)]
 	if E == 3 {
 		hasI1 = hasI0 // a single index file
+	}
+	if len(newOrder) == 3 && E == 1 {
+		_, hasI2 := meta.data[model.GetArchivePathToBundleFileList("r", newID, 2)]
+		hasI1 = hasI1 && hasI2
 	}
 	complete := hasDesc && hasI0 && hasI1
 	if hasDesc {
@@ -152,7 +162,7 @@ func VerifC06UploadCrash() {
 	if !complete {
 		vAssert(derr != nil, "partial-bundle-cannot-be-fetched")
 	} else {
-		vAssert(derr == nil && len(probe.BundleEntries) == 2, "complete-bundle-fetches-with-all-entries")
+		vAssert(derr == nil && len(probe.BundleEntries) == len(newOrder), "complete-bundle-fetches-with-all-entries")
 	}
 	_ = status.ErrNotFound
 	// the committed bundle still downloads with its content; the label still resolves
@@ -167,7 +177,7 @@ func VerifC06UploadCrash() {
 	// a retried upload succeeds and becomes the latest
 	if !complete {
 		vNextSecond()
-		rb, rerr := upload(map[string][]byte{"a": ca, "b": cb}, []string{"a", "b"})
+		rb, rerr := upload(newFiles, newOrder)
 		vAssert(rerr == nil, "retried-upload-succeeds")
 		lt, e := GetLatestBundle("r", stores)
 		vAssert(e == nil && lt == rb.BundleID, "retried-bundle-becomes-latest")
